@@ -228,6 +228,17 @@ func checkC17(c *vlib.Ctx) (string, string) {
 		}
 		tryCfg(l)
 	}
+	// (c'') all 32 switch combinations x every list of <=2 labelled origin atoms (one pattern may collect several
+	// incompatibilities at once) x two response-header atoms
+	ol := idxLists(len(c04OA), 2)
+	cp := vlib.Product{Sizes: []int{32, len(ol), 2}}
+	sws := allSwitches()
+	c.ParRange(cp.Count(), 64, "C17 switch x origin-atom lists", func(i int64) {
+		var tmp [4]int
+		ix := cp.At(i, tmp[:0])
+		k := c04Make(sws[ix[0]], ol[ix[1]], []int{0}, []int{0, 2}, []int{[]int{0, 2}[ix[2]]}, 600, 201, "new")
+		tryCfg(k.Cfg)
+	})
 	// (d) requests
 	disc := []string{"https://a.b", "https://*.a.b", "https://b.a:*", "http://1.2.3.4", "http://[::1]", "ab://c"}
 	rcfgs := []CfgLit{
